@@ -531,3 +531,31 @@ Definition connect_downstream (st : N) : down :=
 (* a refusal (non-2xx) is relayed: same status, its whole body, then the end *)
 Definition down_ok (sent got body_sent body_got : N) (body_prefix eos : bool) : bool :=
   N.eqb sent got && N.eqb body_sent body_got && body_prefix && eos.
+
+(* ------------------------------------------------------------------ *)
+(* Small oracles the driver used to decide by hand                      *)
+(* ------------------------------------------------------------------ *)
+
+(* status of the CONNECT response the client must read: 200 when the proxy
+   dials itself or goes through a real martian, the downstream proxy's own
+   status when a scripted downstream proxy answered [Some code] *)
+Definition expected_status (downstream : option N) : N :=
+  match downstream with
+  | None => 200
+  | Some code => d_status (connect_downstream code)
+  end.
+
+Definition status_ok (want : N) (got : option N) : bool :=
+  match got with Some g => N.eqb g want | None => false end.
+
+(* how a receiving end's stream ended, and when a reset may stand for
+   end-of-stream: only once the peer's socket is fully gone (full or abortive
+   close); before that it is a read error ([None]) *)
+Inductive eos_seen := NoEos | CleanEos | ResetEos.
+
+Definition eos_flag (peer_gone : bool) (e : eos_seen) : option bool :=
+  match e with
+  | NoEos => Some false
+  | CleanEos => Some true
+  | ResetEos => if peer_gone then Some true else None
+  end.
